@@ -559,6 +559,7 @@ struct Lower {
     return ex(A);
   }
   std::string call(const CallExpr* X) {
+    if (isa<CXXPseudoDestructorExpr>(X->getCallee()->IgnoreParens())) return "((void)0) /* pseudo-destructor call on a scalar */";
     const FunctionDecl* FD = X->getDirectCallee();
     if (!FD) throw Unsupported{"indirect call"};
     std::vector<std::string> args;
